@@ -155,5 +155,8 @@ func runOne(id, tier, only string, p *core.Prog) (code int) {
 	if len(r.Obs) == 0 {
 		r.Fail("meta", "no-obligations", "", "the checker produced no obligations (vacuous)")
 	}
+	if tier == "thorough" && only == "" {
+		runControls(id, r)
+	}
 	return r.Finish()
 }
